@@ -81,9 +81,10 @@ def main():
     for src, dst in ((a.patch, "patch.diff"), (a.demo, "demo.py")):
         if os.path.abspath(src) != os.path.join(d, dst):
             shutil.copy(src, os.path.join(d, dst))
-    if a.notes and os.path.exists(a.notes):
+    if a.notes and os.path.exists(a.notes) and os.path.abspath(a.notes) != os.path.join(d, "notes.md"):
         shutil.copy(a.notes, os.path.join(d, "notes.md"))
-        meta["needs_to_manifest"] = open(a.notes).read()[:1500]
+    if os.path.exists(os.path.join(d, "notes.md")):
+        meta["needs_to_manifest"] = open(os.path.join(d, "notes.md")).read()[:1500]
     old = {}
     mp = os.path.join(d, "meta.json")
     if os.path.exists(mp):
